@@ -371,11 +371,11 @@ def register(reg):
     reg.add_lemma("hexary_traverse", Lemma("lemma:first_child", ("C08", "C10"), lemma_first_child))
     reg.add_lemma("hexary_traverse", Lemma("lemma:prefix_first", ("C08", "C10"), lemma_prefix_first))
     g = "hexary_traverse"
-    reg.add(g, Contract(NODES + ":annotate_node", ["node_body"], annotate_cases, setup=annotate_setup, props=("C08",)))
+    reg.add(g, Contract(NODES + ":annotate_node", ["node_body"], annotate_cases, setup=annotate_setup, props=("C08", "C09")))
     H = HEX + ":HexaryTrie."
     reg.add(g, Contract(H + "traverse", ["self", "trie_key_input"], traverse_cases, setup=traverse_setup,
-                        props=("C08", "C07"), callee=False))
+                        props=("C08", "C07", "C09"), callee=False))
     reg.add(g, Contract(H + "traverse_from", ["self", "parent_node", "trie_key_input"], tfrom_cases, setup=tfrom_setup,
-                        props=("C08", "C07", "C10"), requires=tfrom_requires))
+                        props=("C08", "C07", "C09", "C10"), requires=tfrom_requires))
     reg.add(g, Contract(H + "root_node", ["self"], root_node_cases, setup=root_node_setup, props=("C08", "C07"),
                         callee=False))
